@@ -284,6 +284,19 @@ func c11(c *core.Ctx) {
 		c.Count("ticker_collector_walks", 1)
 		c.DistinctStr(fmt.Sprintf("ticker-collector-%d", i))
 	})
+	c.Section("buffers-not-shared-across-clients", 8, func(i int64, _ *gen.Rand) {
+		targetedBuffersNotShared(c, int(c.N(40, 2000)))
+		c.DistinctStr(fmt.Sprintf("buffers-not-shared-%d", i))
+	})
+	c.Section("clock-moves-inside-tick", 3, func(i int64, _ *gen.Rand) {
+		targetedClockMovesInsideTick(c, int(i))
+		c.DistinctStr(fmt.Sprintf("clock-moves-inside-tick-%d", i))
+	})
+	// Close while the library's ticker collector is in the middle of a retransmission: nothing is written once Close returned
+	c.Section("close-during-retransmitting-tick", 4, func(i int64, _ *gen.Rand) {
+		targetedCloseDuringCollectorTick(c, 8+int(i))
+		c.DistinctStr(fmt.Sprintf("close-during-retransmitting-tick-%d", i))
+	})
 	// random sizes
 	c.Section("schedule-walks-random", c.N(300, 200000), func(_ int64, r *gen.Rand) {
 		size := r.PickInt([]int{20 + r.Intn(3000), 2040 + r.Intn(20), 20 + r.Intn(65536)})
